@@ -2,6 +2,7 @@
 
 generate program -> real model -> (paths, count, instances by 3 routes) vs Lean `Comp` model;
 oracle = the property sentence evaluated on the real instance."""
+import json
 import math
 import re
 
@@ -11,6 +12,7 @@ from common import f2h, h2f, close
 import gen_comp
 import extract_comp as X
 
+import autofit as af
 from autofit.mapper.prior.abstract import Prior
 from autofit.mapper.prior.tuple_prior import TuplePrior
 from autofit.mapper.prior_model.array import Array
@@ -302,6 +304,29 @@ def one_case(ctx, prog, vec=None, label="gen"):
                      case, {"path": list(map(str, path)), "got": repr(got), "want": want})
     # derived values and constants
     check_derived_and_consts(ctx, model, inst, args, case, ())
+    # models derived from this one (prior passing, tightened limits, replaced priors) are new models: the model
+    # they were derived from still advertises and builds what it did
+    try:
+        ps = list(model.priors_ordered_by_id)
+        model.mapper_from_uniform_floats([0.5] * len(ps), b=0.25)
+        model.mapper_from_prior_arguments({p: af.UniformPrior(lower_limit=0.0, upper_limit=1.0) for p in ps})
+        derived_ok = True
+    except Exception as e:  # noqa: what passing does is C12's subject
+        ctx.hit("derivation-raised:" + type(e).__name__)
+        derived_ok = False
+    if derived_ok:
+        ctx.hit("original-after-derivation")
+        comp2 = X.node_of(model)
+        inst2 = None
+        try:
+            inst2 = X.canon_inst(X.inst_of(model.instance_from_vector(v, ignore_prior_limits=True)))
+        except Exception as e:  # noqa
+            inst2 = "raised:" + type(e).__name__
+        inst1 = X.canon_inst(X.inst_of(inst))
+        if json.dumps(comp2, sort_keys=True) != json.dumps(comp, sort_keys=True) or json.dumps(inst2, sort_keys=True) != json.dumps(inst1, sort_keys=True):
+            ctx.fail("C01-model-changed-by-derivation",
+                     "deriving another model (mapper_from_uniform_floats / mapper_from_prior_arguments) changed what the original model "
+                     "advertises or builds", case, {"composition_changed": comp2 != comp, "instance_changed": inst2 != inst1})
 
 
 def nonctor_place(model, path):
@@ -363,6 +388,33 @@ def arith_domain(a, b):
     return "complex" in s
 
 
+def same_named_classes(ctx):
+    """the instance a model builds is made by the constructor of *its* class with all its arguments, also when a
+    model of another class of the same name (and module) was composed before"""
+    import vlib
+
+    class P2:  # same name and module as vlib.P2, one more constructor argument
+        def __init__(self, a=0.0, b=1.0, extra=3.0):
+            self.a = a
+            self.b = b
+            self.extra = extra
+
+    P2.__module__, P2.__qualname__ = "vlib", "P2"
+    case = {"label": "same-named-classes"}
+    try:
+        af.Model(vlib.P2).prior_count
+        m = af.Model(P2, extra=7.25)  # the extra argument fixed to a value that is not its default
+        inst = m.instance_from_vector([0.5] * m.prior_count, ignore_prior_limits=True)
+        got = (m.prior_count, sorted(".".join(map(str, p)) for p in m.paths), type(inst) is P2, getattr(inst, "extra", "absent"))
+    except Exception as e:  # noqa
+        got = f"{type(e).__name__}: {str(e)[:120]}"
+    ctx.hit("same-named-classes")
+    if got != (2, ["a", "b"], True, 7.25):
+        ctx.fail("C01-instance-of-other-class-signature",
+                 "a model composed after a model of another class with the same name builds its instance with that other "
+                 "class's argument list (a fixed constructor argument is not passed)", case, {"got": str(got), "want": "(2, ['a', 'b'], True, 7.25)"})
+
+
 def run(ctx):
     ctx.rule = RULE
     ctx.assumptions = [
@@ -381,8 +433,11 @@ def run(ctx):
         big_tuple = ctx.rng.random() < 0.15
         prog = gen_comp.gen_program(ctx.rng, allow_tuple=True)
         one_case(ctx, prog)
+    same_named_classes(ctx)
 
 
 def replay(ctx, payload):
     case = payload.get("case") or payload.get("disagreements", [{}])[0].get("case")
+    if case.get("label") == "same-named-classes":
+        return same_named_classes(ctx)
     one_case(ctx, case["program"], case.get("vector"), label="replay")
